@@ -332,6 +332,18 @@ fn check_artifact<B: ocipkg::image::Image>(sig: &str, art: &mut Artifact<B>, lay
     if art.get_instance(&unknown).is_ok() || art.get_solution(&unknown).is_ok() || art.get_parametric_instance(&unknown).is_ok() || art.get_sample_set(&unknown).is_ok() {
         return fail(format!("{sig}/unknown-digest-accepted"), format!("a digest that is not in the artifact was accepted: {}", what()));
     }
+    // a digest with another algorithm but the hex part of a stored layer is not the digest of any layer
+    if let Some(d) = descs.first() {
+        if let Some(hex) = d.digest().strip_prefix("sha256:") {
+            for alg in ["sha512", "blake3"] {
+                if let Ok(alt) = Digest::new(&format!("{alg}:{hex}")) {
+                    if art.get_layer(&alt).is_ok() || art.get_instance(&alt).is_ok() || art.get_solution(&alt).is_ok() || art.get_parametric_instance(&alt).is_ok() || art.get_sample_set(&alt).is_ok() {
+                        return fail(format!("{sig}/foreign-algorithm-digest-accepted"), format!("digest {alt} (same hex as a stored layer, other algorithm) was accepted: {}", what()));
+                    }
+                }
+            }
+        }
+    }
     // list accessors
     match art.get_instances() {
         Ok(v) => {
